@@ -113,7 +113,48 @@ pub fn bls_cache_ground() -> EvalResult {
         ("infinity-key-extra-pair", vec![(pk1, b"hello".to_vec()), (inf, b"x".to_vec())], s1.clone(), false),
         ("infinity-key-only", vec![(inf, b"x".to_vec())], Signature::default(), false),
     ];
+    // a public key on the curve but outside the prime-order subgroup (reachable through from_bytes_unchecked / trusted
+    // parsing / point addition): the honest key of sk1 shifted by a pure cofactor point.  No secret key signs for it, so
+    // no signature is valid for it - the one tried is sk1's signature over the shifted key's augmented message
+    let mut cases = cases;
+    {
+        const R_MINUS_1: [u8; 32] = [0x73, 0xed, 0xa7, 0x53, 0x29, 0x9d, 0x7d, 0x48, 0x33, 0x39, 0xd8, 0x08, 0x09, 0xa1, 0xd8, 0x05,
+            0x53, 0xbd, 0xa4, 0x02, 0xff, 0xfe, 0x5b, 0xfe, 0xff, 0xff, 0xff, 0xff, 0x00, 0x00, 0x00, 0x00];
+        let mut torsion: Option<PublicKey> = None;
+        for i in 0..=255u8 {
+            let mut b = [0u8; 48];
+            b[0] = 0x80; b[47] = i;
+            let Ok(p) = PublicKey::from_bytes_unchecked(&b) else { continue; };
+            if p.is_valid() { continue; }
+            let mut t = p;
+            t.scalar_multiply(&R_MINUS_1);
+            t += &p;
+            if !t.is_inf() && !t.is_valid() { torsion = Some(t); break; }
+        }
+        if let Some(t) = torsion {
+            let mut bad = pk1;
+            bad += &t;
+            let mut aug = bad.to_bytes().to_vec();
+            aug.extend_from_slice(b"hello");
+            let sig_bad = chia_bls::sign_raw(&sk1, &aug);
+            cases.push(("off-subgroup-key", vec![(bad, b"hello".to_vec())], sig_bad.clone(), false));
+            cases.push(("off-subgroup-key-with-honest-pair", vec![(pk2, b"world".to_vec()), (bad, b"hello".to_vec())], aggregate([&s2, &sig_bad]), false));
+        }
+    }
     for (name, pairs, sig, want) in cases {
+        // verification from precomputed pairings e(H(pk ‖ msg), pk) agrees whenever no key is the point at infinity
+        if !pairs.iter().any(|(p, _)| p.is_inf()) {
+            res.obligations += 1;
+            let gts: Vec<chia_bls::GTElement> = pairs.iter().map(|(p, m)| { let mut aug = p.to_bytes().to_vec(); aug.extend_from_slice(m); chia_bls::hash_to_g2(&aug).pair(p) }).collect();
+            let gt = chia_bls::aggregate_verify_gt(&sig, &gts);
+            let plain = aggregate_verify(&sig, pairs.iter().map(|(p, m)| (p, m.as_slice())));
+            if gt == want && plain == want { res.discharged += 1; } else {
+                res.failures.push(json!({"id": format!("bls_cache_ground/{name}/gt"), "function": "aggregate_verify_gt",
+                    "message": format!("case {name}: aggregate_verify = {plain}, aggregate_verify_gt over the precomputed pairings = {gt}, required verdict = {want}"),
+                    "clause": "verification from precomputed pairings agrees whenever no key is the point at infinity",
+                    "cex": {"unit": "eval", "function": "bls_cache_ground", "input": {"case": name, "warm": "gt"}}}));
+            }
+        }
         for warm in [false, true] {
             res.obligations += 1;
             let plain = aggregate_verify(&sig, pairs.iter().map(|(p, m)| (p, m.as_slice())));
@@ -143,9 +184,9 @@ pub fn bls_cache_ground() -> EvalResult {
 pub fn replay_bls(input: &Value) -> (bool, String) {
     let r = bls_cache_ground();
     let case = input["case"].as_str().unwrap_or("");
-    let warm = input["warm"].as_bool().unwrap_or(false);
+    let warm = input["warm"].clone();
     for f in &r.failures {
-        if f["cex"]["input"]["case"].as_str() == Some(case) && f["cex"]["input"]["warm"].as_bool() == Some(warm) {
+        if f["cex"]["input"]["case"].as_str() == Some(case) && f["cex"]["input"]["warm"] == warm {
             return (true, f["message"].as_str().unwrap_or("").to_string());
         }
     }
@@ -897,6 +938,7 @@ pub fn run(task: &str) -> Option<EvalResult> {
         "merkle_ground" => Some(crate::merkle::merkle_ground(false)),
         "merkle_ground:thorough" => Some(crate::merkle::merkle_ground(true)),
         "tree_hash_ground" => Some(crate::t_tree_hash::tree_hash_ground()),
+        "curry_ground" => Some(crate::t_tree_hash::curry_ground()),
         "roundtrip_ground" => Some(crate::roundtrip::roundtrip_ground(false)),
         "roundtrip_ground:thorough" => Some(crate::roundtrip::roundtrip_ground(true)),
         "pos_v2_hash" => Some(pos_v2_hash()),
